@@ -6,7 +6,15 @@
 (* where an integer is expected, and a derivative requested w.r.t. an integer- *)
 (* valued argument are reported as errors; two identical calls give identical  *)
 (* bits (non-random functions); the call returns.                              *)
-(* NOT decided: agreement of the derivatives with numerical differentiation.   *)
+(* Agreement with numerical differentiation is decided on MEASUREMENTS (clause *)
+(* "agree"): for calls whose arguments are all plain values (0, -1, 0.25..3)   *)
+(* the harness compares each returned partial with left- and right-sided       *)
+(* Richardson difference quotients of the binding's own values (second         *)
+(* partials: of its own first partials) and logs a class per partial and side: *)
+(* "ok" (within 1e-3 relative), "bad" (the quotient is stable under step       *)
+(* halving and differs by more than 1e-2 relative), "unk" otherwise.  A "bad"  *)
+(* with no error reported means the returned derivative is wrong there or does *)
+(* not exist (kink: the two sides differ) -- sampled observation, not a proof. *)
 (*                                                                             *)
 (* A case  c:  fn, ar (arity), ip (integer-valued argument positions, 1-based, *)
 (*   from the C prototype of the GSL function of the same name), rnd, str      *)
@@ -27,11 +35,16 @@ EXTENDS Integers, Sequences, FiniteSets
 Classes == {"NaN", "nbig", "m1", "ntiny", "zero", "tiny", "half", "one", "two", "big", "nonint"}
 Regular == {"half", "one", "two"}
 Modes   == {"v", "d", "h"}
-Clauses == {"value", "derivs", "hes", "nanarg", "nonint", "intderiv", "determinism", "shape"}
+Clauses == {"value", "derivs", "hes", "nanarg", "nonint", "intderiv", "determinism", "shape", "agree"}
+Plain   == {"zero", "half", "one", "two", "m1"}       \* argument classes at which agreement is measured
+AgreeClasses == {"ok", "bad", "unk"}
 
 IntPos(c)   == {c.ip[i] : i \in 1..Len(c.ip)}
 Const(c, i) == c.digc /\ i \in IntPos(c)         \* partial w.r.t. argument i not requested
 HesIdx(i, j) == i + ((j - 1) * j) \div 2          \* 1-based index of (i,j), i <= j, upper triangle
+\* the other reading of "upper triangle" (by rows; the repository's gsl-test indexes that way);
+\* identical for fewer than three arguments
+HesIdxR(n, i, j) == ((i - 1) * (2 * n - i)) \div 2 + (j - i) + 1
 
 WantD(c) == c.mode \in {"d", "h"}
 WantH(c) == c.mode = "h"
@@ -41,6 +54,9 @@ ShapeOK(c, o) == /\ o.err \in {"none", "eval", "deriv", "hes"}
                  /\ o.val \in (IF c.str THEN {"str"} ELSE {"fin", "inf", "nan"})
                  /\ Len(o.dn) = (IF WantD(c) THEN c.ar ELSE 0) /\ Len(o.du) = Len(o.dn)
                  /\ Len(o.hn) = (IF WantH(c) THEN (c.ar * (c.ar + 1)) \div 2 ELSE 0) /\ Len(o.hu) = Len(o.hn)
+                 /\ Len(o.dl) = Len(o.dn) /\ Len(o.dr) = Len(o.dn) /\ Len(o.hl) = Len(o.hn) /\ Len(o.hr) = Len(o.hn)
+                 /\ Len(o.hlr) = Len(o.hn) /\ Len(o.hrr) = Len(o.hn)
+                 /\ \A q \in {o.dl, o.dr, o.hl, o.hr, o.hlr, o.hrr} : \A i \in 1..Len(q) : q[i] \in AgreeClasses
 
 \* Errmsg = NULL => nothing that was asked for is NaN or left unwritten (an arbitrary number)
 ValueOK(c, o)  == o.err = "none" => o.val # "nan"
@@ -49,6 +65,16 @@ DerivsOK(c, o) == (o.err = "none" /\ WantD(c) /\ Len(o.dn) = c.ar /\ Len(o.du) =
 HesOK(c, o)    == (o.err = "none" /\ WantH(c) /\ Len(o.hn) = (c.ar * (c.ar + 1)) \div 2 /\ Len(o.hu) = Len(o.hn)) =>
                     \A j \in 1..c.ar : \A i \in 1..j :
                        (~Const(c, i) /\ ~Const(c, j)) => (~o.hn[HesIdx(i, j)] /\ ~o.hu[HesIdx(i, j)])
+\* Errmsg = NULL => no requested partial is contradicted by numerical differentiation on either side
+\* (second partials: under at least one of the two readings of the layout)
+AgreeOK(c, o) == (/\ o.err = "none" /\ Len(o.dl) = Len(o.dn) /\ Len(o.dr) = Len(o.dn)
+                  /\ \A q \in {o.hl, o.hr, o.hlr, o.hrr} : Len(q) = Len(o.hn)) =>
+                   /\ \A i \in 1..Len(o.dl) : ~Const(c, i) => (o.dl[i] # "bad" /\ o.dr[i] # "bad")
+                   /\ Len(o.hl) = (c.ar * (c.ar + 1)) \div 2 =>
+                        \/ \A j \in 1..c.ar : \A i \in 1..j :
+                              (~Const(c, i) /\ ~Const(c, j)) => (o.hl[HesIdx(i, j)] # "bad" /\ o.hr[HesIdx(i, j)] # "bad")
+                        \/ \A j \in 1..c.ar : \A i \in 1..j :
+                              (~Const(c, i) /\ ~Const(c, j)) => (o.hlr[HesIdxR(c.ar, i, j)] # "bad" /\ o.hrr[HesIdxR(c.ar, i, j)] # "bad")
 \* what cannot be computed is reported
 NaNArgOK(c, o) == (\E i \in 1..c.ar : c.cls[i] = "NaN") => o.err # "none"
 NonIntOK(c, o) == (\E i \in IntPos(c) : c.cls[i] = "nonint") => o.err # "none"
@@ -63,6 +89,7 @@ Holds(cl, c, o) == CASE cl = "value"       -> ValueOK(c, o)
                      [] cl = "intderiv"    -> IntDerivOK(c, o)
                      [] cl = "determinism" -> DetOK(c, o)
                      [] cl = "shape"       -> ShapeOK(c, o)
+                     [] cl = "agree"       -> AgreeOK(c, o)
 Violated(c, o) == {cl \in Clauses : ~Holds(cl, c, o)}
 
 -----------------------------------------------------------------------------
